@@ -88,6 +88,19 @@ def check(run):
         f = repo.func(rel, 'Pauli.__matmul__')
         K.product_sites(run, f, order='params', floor=1)
         bind.check_function_calls(run, repo, f, only={'Pauli'})
+        from ..names import deref
+        other = f.posparams[1]
+        for c in ast.walk(f.node):
+            if isinstance(c, ast.Call) and isinstance(c.func, ast.Name) and c.func.id == 'Pauli' and len(c.args) >= 1:
+                ph = deref(f, c.args[1]) if len(c.args) > 1 else None
+                st_ = deref(f, c.args[0])
+                ptxt = norm(ph) if ph is not None else ''
+                gtxt = norm(st_)
+                run.check('self.p' in ptxt and '%s.p' % other in ptxt and 'ipow(' in ptxt, 'R6.product', f, c,
+                          'every operator returned as the product must carry p1 + p2 + ipow(g1, g2): this result\'s phase is `%s` '
+                          '(a shortcut that ignores one operand\'s phase is wrong when that operand is a signed identity)' % ptxt)
+                run.check('self.g' in gtxt and '%s.g' % other in gtxt, 'R6.product', f, c,
+                          'every operator returned as the product must have the string g1 xor g2: this result\'s string is `%s`' % gtxt)
     for rel in (K.PY_U, K.TC_U):
         f = repo.func(rel, 'batch_dot')
         K.product_sites(run, f, order='params', floor=1)
@@ -111,6 +124,7 @@ def check(run):
     entries += [repo.func(rel, n) for rel, n, *_ in K.KERNELS]
     resolve.check_cone(run, repo, entries, 'products')
     run.floor('R8', 9)
+    run.floor('R6.product', 4)
     run.floor('R7a', 4)
     run.floor('R7c', 4)
     run.floor('R7e', 8)
